@@ -113,6 +113,7 @@ func (r *DailyRotateRule) OutdatedFiles() []string {
 	}
 
 	files = excludeFile(files, r.filename)
+	files = r.onlyDatedBackups(files)
 
 	var buf strings.Builder
 	boundary := time.Now().Add(-time.Hour * time.Duration(hoursPerDay*r.days)).Format(dateFormat)
@@ -130,6 +131,22 @@ func (r *DailyRotateRule) OutdatedFiles() []string {
 	}
 
 	return outdates
+}
+
+// onlyDatedBackups 只保留名字里分隔符之后确实是备份日期的文件：通配模式还会匹配到只是
+// 同前缀的其他文件（如 app.log-0-draft），它们不是备份，不能因为名字排在边界日期之前就被删除。
+func (r *DailyRotateRule) onlyDatedBackups(files []string) []string {
+	prefix := filepath.Base(r.filename) + r.delimiter
+	kept := files[:0]
+	for _, f := range files {
+		name := strings.TrimPrefix(filepath.Base(f), prefix)
+		name = strings.TrimSuffix(name, gzipExt)
+		if _, err := time.Parse(dateFormat, name); err == nil {
+			kept = append(kept, f)
+		}
+	}
+
+	return kept
 }
 
 // ShallRotate 检查文件是否应该被轮换。
